@@ -18,6 +18,7 @@ ROOT = os.path.dirname(os.path.dirname(os.path.abspath(__file__)))
 ENGINE = os.path.join(ROOT, 'engine')
 REPO = os.environ.get('VF_REPO', '/repo')
 BUILD = os.path.join(ROOT, '.build')
+OUT = os.environ.get('VF_OUT_DIR', ROOT)   # evidence/ and replay/ are written below this (seedtest.py redirects it)
 CLANG = 'clang++-16'
 NCPU = int(os.environ.get('VF_JOBS', str(os.cpu_count() or 8)))
 
@@ -83,6 +84,7 @@ class Family:
         self.kernel2 = os.path.join(self.dir, k2) if k2 else None
         self.kernel2_flags = getattr(self.mod, 'KERNEL2_FLAGS', [])
         self.driver_flags = getattr(self.mod, 'DRIVER_FLAGS', [])
+        self.ll2c_flags = getattr(self.mod, 'LL2C_FLAGS', [])   # optional translator options of this family (e.g. --divrem-narrow)
 
 
 def all_families():
@@ -151,7 +153,7 @@ class Build:
                 self.ok = False
                 self.err = 'clang failed: %s\n%s' % (' '.join(cmd), e[-3000:])
                 return self
-            rc, o, e, s, to = sh([sys.executable, os.path.join(ENGINE, 'll2c.py'), ll, '--prefix', pre, '-o', c], timeout=300)
+            rc, o, e, s, to = sh([sys.executable, os.path.join(ENGINE, 'll2c.py'), ll, '--prefix', pre, '-o', c] + list(getattr(self.fam, 'll2c_flags', [])), timeout=300)
             if rc != 0:
                 self.ok = False
                 self.err = 'll2c failed on %s: %s' % (ll, e[-3000:])
@@ -480,17 +482,17 @@ def validate_translation(b, entries, nvec, seed, outdir):
 
 
 def write_replay(prop, fam, q, b, r, idx):
-    d = os.path.join(ROOT, 'replay', prop)
+    d = os.path.join(OUT, 'replay', prop)
     os.makedirs(d, exist_ok=True)
     name = '%s-%s-%s-%d.json' % (fam.name.replace('/', '_'), q['entry'], hashlib.sha1(b.key.encode()).hexdigest()[:8], idx)
     p = os.path.join(d, name)
     json.dump({'property': prop, 'family': fam.name, 'entry': q['entry'], 'cfg': b.cfg, 'ub': b.ub, 'kf': b.kf, 'nofunc': b.nofunc,
                'inputs': r.inputs or [], 'failed': r.failed[:8], 'solver': r.solver}, open(p, 'w'), indent=1)
-    return os.path.relpath(p, ROOT)
+    return os.path.relpath(p, OUT)
 
 
 def do_replay(path):
-    rp = json.load(open(os.path.join(ROOT, path) if not os.path.isabs(path) else path))
+    rp = json.load(open(os.path.join(OUT, path) if not os.path.isabs(path) else path))
     fam = Family(rp['family'])
     b = Build(fam, rp['cfg'], rp['ub'], rp.get('kf', {}), rp.get('nofunc', False), 'replay')
     out = os.path.join(BUILD, 'replay', 'native_' + hashlib.sha1(b.key.encode()).hexdigest()[:10])
@@ -511,9 +513,9 @@ def do_replay(path):
 def check(prop, tier, families=None, only_entry=None, verbose=False):
     t0 = time.time()
     seed = int(os.environ.get('VERIF_SEED', '0') or 0)
-    tag = prop + '_' + tier
+    tag = prop + '_' + tier + ('' if OUT == ROOT else '_%d' % os.getpid())
     shutil.rmtree(os.path.join(BUILD, tag), ignore_errors=True)
-    shutil.rmtree(os.path.join(ROOT, 'replay', prop), ignore_errors=True)
+    shutil.rmtree(os.path.join(OUT, 'replay', prop), ignore_errors=True)
     fams = []
     for n in all_families():
         f = Family(n)
@@ -730,8 +732,8 @@ def check(prop, tier, families=None, only_entry=None, verbose=False):
         'wall_s': round(time.time() - t0, 1),
         'violations': len(violations),
     }
-    os.makedirs(os.path.join(ROOT, 'evidence'), exist_ok=True)
-    json.dump(ev, open(os.path.join(ROOT, 'evidence', prop + '.json'), 'w'), indent=1, default=str)
+    os.makedirs(os.path.join(OUT, 'evidence'), exist_ok=True)
+    json.dump(ev, open(os.path.join(OUT, 'evidence', prop + '.json'), 'w'), indent=1, default=str)
     print('[vf] %s %s: %d/%d queries UNSAT-with-reachable-witness, %d violations, %d check errors, %d validation vectors, %.0fs' % (
         prop, tier, nok, nq, len(violations), len(infra) + len(bad_builds), nval, time.time() - t0), flush=True)
     if not os.environ.get('VF_KEEP'):
